@@ -156,6 +156,11 @@ func (x *Exec) coroYield(st *State, fr *Frame, c *callCtx, await bool) bool {
 			x.unsupported(st, "commands is not a slice")
 			return true
 		}
+		// "site yield store assert e": e holds at every store submission (cmds = the transaction's commands)
+		x.siteAsserts(st, fr, "yield", "store", map[string]TV{"cmds": {cmds, cmds.Typ}})
+		if st.dead {
+			return true
+		}
 		return x.coroStore(st, fr, c, cmds, tagsV, retTuple, failed)
 	case 1: // Router
 		g.relyStep("rely")
